@@ -43,10 +43,12 @@ const (
 	c15KStop           // STOP_SENDING
 	c15KMaxData        // MAX_STREAM_DATA
 	c15KBlocked        // STREAM_DATA_BLOCKED
+	c15KMaxData1       // MAX_STREAM_DATA(1): opens the send window for a single byte
+	c15KMaxData3       // MAX_STREAM_DATA(3)
 	c15NKinds
 )
 
-var c15KindName = [c15NKinds]string{"STREAM", "STREAM+FIN", "RESET_STREAM", "STOP_SENDING", "MAX_STREAM_DATA", "STREAM_DATA_BLOCKED"}
+var c15KindName = [c15NKinds]string{"STREAM", "STREAM+FIN", "RESET_STREAM", "STOP_SENDING", "MAX_STREAM_DATA", "STREAM_DATA_BLOCKED", "MAX_STREAM_DATA(1)", "MAX_STREAM_DATA(3)"}
 var c15ClassName = [4]string{"peer-bidi", "peer-uni", "local-bidi", "local-uni"}
 var c15TypeName = [2]string{"bidi", "uni"}
 var c15CallName = [2]string{"", "Uni"}
@@ -72,6 +74,15 @@ type c15Cfg struct {
 	reset0rtt  bool     // ResetFor0RTT (once) + UseResetMaps offered
 	closeErr   bool     // CloseWithError offered
 	depth      int
+	// fine-grained send path (file c15_rel_test.go): Write, SetReliableBoundary, and the
+	// transmission of a send half one frame at a time (pop a STREAM frame / the RESET_STREAM
+	// frame, acknowledge or lose any frame in flight) instead of the atomic flush
+	fine      bool
+	rsa       bool // the peer's transport parameters carry reset_stream_at (RESET_STREAM_AT extension)
+	tpStart   bool // the transport parameters are delivered before the first operation
+	restore   bool // 0-RTT: remembered transport parameters (same limits, no reset_stream_at) are restored before the first operation; the server's actual ones arrive with the tparams op
+	zeroWin   bool // streams start with a send window of 0 (initial_max_stream_data_* = 0): data stays buffered until MAX_STREAM_DATA
+	noCancelR bool // CancelRead not offered (keeps the receive half small)
 }
 
 // c15Sender is the recording streamSender. Completion is routed exactly as in
@@ -106,8 +117,13 @@ type c15Str struct {
 	fin, rst, rstEff, cancR, readErr bool
 	// send half
 	closed, cancW, sreset, pendFIN, pendRST bool
-	// latches (SendStream.completed / ReceiveStream.completed / deleted from the map)
-	sDone, rDone, done bool
+	// latches (SendStream.completed / ReceiveStream.completed / deleted from the map).
+	// sDone: the send half MUST have completed; sMay: it MAY have completed. The two differ
+	// only with the fine-grained send path (c15_rel_test.go).
+	sDone, sMay, rDone, done bool
+	// fine-grained send path, see c15_rel_test.go
+	fine bool
+	snd  c15Snd
 }
 
 func (s *c15Str) hasRecv() bool { return s.class != 3 }
@@ -115,16 +131,37 @@ func (s *c15Str) hasSend() bool { return s.class != 1 }
 func (s *c15Str) recvDone() bool {
 	return (s.fin || s.rst) && (s.cancR || s.readErr)
 }
-func (s *c15Str) sendDone() bool {
-	return (s.closed || s.cancW) && !s.pendFIN && !s.pendRST
+
+// sendDone: (the send half may be complete, it must be complete).
+func (s *c15Str) sendDone() (may, must bool) {
+	if s.fine {
+		return s.fineSendDone()
+	}
+	d := (s.closed || s.cancW) && !s.pendFIN && !s.pendRST
+	return d, d
 }
-func (s *c15Str) fullyDone() bool {
+
+// update refreshes the latches.
+func (s *c15Str) update() {
 	if s.recvDone() {
 		s.rDone = true
 	}
-	if s.sendDone() {
-		s.sDone = true
+	may, must := s.sendDone()
+	if may {
+		s.sMay = true
 	}
+	if must {
+		s.sDone, s.sMay = true, true
+	}
+}
+
+// mayBeDone: the frames and calls the stream has seen allow it to be fully complete.
+func (s *c15Str) mayBeDone() bool {
+	return (!s.hasRecv() || s.rDone) && (!s.hasSend() || s.sMay)
+}
+
+// fullyDone: the stream is fully complete, it has to be reported so.
+func (s *c15Str) fullyDone() bool {
 	return (!s.hasRecv() || s.rDone) && (!s.hasSend() || s.sDone)
 }
 func (s *c15Str) sendStr() *SendStream {
@@ -180,13 +217,24 @@ func newC15Inst(cfg *c15Cfg) *c15Inst {
 		in.sender,
 		func(f wire.Frame) { in.queued = append(in.queued, f) },
 		func(id protocol.StreamID) flowcontrol.StreamFlowController {
-			return flowcontrol.NewStreamFlowController(id, cfc, 1<<20, 1<<20, 1<<20, rtt, utils.DefaultLogger)
+			win := protocol.ByteCount(1 << 20)
+			if cfg.zeroWin {
+				win = 0
+			}
+			return flowcontrol.NewStreamFlowController(id, cfc, 1<<20, 1<<20, win, rtt, utils.DefaultLogger)
 		},
 		uint64(cfg.lim[0]), uint64(cfg.lim[1]),
 		cfg.pers,
 	)
 	in.sender.m = in.m
 	in.resetModel()
+	if cfg.tpStart {
+		in.doTParams(cfg.rsa)
+	}
+	if cfg.restore {
+		in.doTParams(false) // connection.restoreTransportParameters
+		in.tpSeen = false
+	}
 	return in
 }
 
@@ -297,7 +345,7 @@ func (in *c15Inst) Ops() []explore.Op {
 			if s.fin || s.rstEff || s.cancR {
 				ops = append(ops, explore.Op{N: "read", A: int(s.id)})
 			}
-			if !s.cancR {
+			if !s.cancR && !cfg.noCancelR {
 				ops = append(ops, explore.Op{N: "cancelr", A: int(s.id)})
 			}
 		}
@@ -308,7 +356,9 @@ func (in *c15Inst) Ops() []explore.Op {
 			if !s.cancW {
 				ops = append(ops, explore.Op{N: "cancelw", A: int(s.id)})
 			}
-			if s.pendFIN || s.pendRST {
+			if cfg.fine {
+				ops = in.fineOps(ops, s)
+			} else if s.pendFIN || s.pendRST {
 				ops = append(ops, explore.Op{N: "flush", A: int(s.id)})
 			}
 		}
@@ -356,6 +406,29 @@ func c15Call(f func()) bool {
 	}
 }
 
+// doTParams delivers the peer's transport parameters.
+func (in *c15Inst) doTParams(rsa bool) {
+	win := protocol.ByteCount(1 << 20)
+	if in.cfg.zeroWin {
+		win = 0
+	}
+	in.m.HandleTransportParameters(&wire.TransportParameters{
+		InitialMaxStreamDataBidiLocal:  win,
+		InitialMaxStreamDataBidiRemote: win,
+		InitialMaxStreamDataUni:        win,
+		InitialMaxData:                 1 << 20,
+		MaxBidiStreamNum:               protocol.StreamNum(in.cfg.tp[0]),
+		MaxUniStreamNum:                protocol.StreamNum(in.cfg.tp[1]),
+		EnableResetStreamAt:            rsa,
+	})
+	in.tpSeen = true
+	for t := 0; t < 2; t++ {
+		if in.cfg.tp[t] > in.peerMax[t] {
+			in.peerMax[t] = in.cfg.tp[t]
+		}
+	}
+}
+
 func (in *c15Inst) tag(format string, a ...any) { in.tags = append(in.tags, fmt.Sprintf(format, a...)) }
 
 func (in *c15Inst) Apply(op explore.Op) *explore.Fail {
@@ -386,20 +459,7 @@ func (in *c15Inst) apply(op explore.Op) *explore.Fail {
 			in.tag("stale")
 		}
 	case "tparams":
-		in.m.HandleTransportParameters(&wire.TransportParameters{
-			InitialMaxStreamDataBidiLocal:  1 << 20,
-			InitialMaxStreamDataBidiRemote: 1 << 20,
-			InitialMaxStreamDataUni:        1 << 20,
-			InitialMaxData:                 1 << 20,
-			MaxBidiStreamNum:               protocol.StreamNum(in.cfg.tp[0]),
-			MaxUniStreamNum:                protocol.StreamNum(in.cfg.tp[1]),
-		})
-		in.tpSeen = true
-		for t := 0; t < 2; t++ {
-			if in.cfg.tp[t] > in.peerMax[t] {
-				in.peerMax[t] = in.cfg.tp[t]
-			}
-		}
+		in.doTParams(in.cfg.rsa)
 	case "open":
 		return in.applyOpen(op.A)
 	case "accept":
@@ -420,6 +480,8 @@ func (in *c15Inst) apply(op explore.Op) *explore.Fail {
 		s.fin, s.cancR, s.closed, s.pendFIN, s.pendRST = true, true, true, false, false
 	case "read", "cancelr", "close", "cancelw", "flush":
 		return in.applyApp(op.N, protocol.StreamID(op.A))
+	case "write", "setrel", "popdata", "popctl", "ack", "lost":
+		return in.applyFine(op)
 	case "reset0rtt":
 		in.m.ResetFor0RTT()
 		in.usedReset = true
@@ -452,6 +514,10 @@ func (in *c15Inst) applyFrame(kind, class, num int) *explore.Fail {
 		err = in.m.HandleStopSendingFrame(&wire.StopSendingFrame{StreamID: id, ErrorCode: 9})
 	case c15KMaxData:
 		err = in.m.HandleMaxStreamDataFrame(&wire.MaxStreamDataFrame{StreamID: id, MaximumStreamData: 1 << 20})
+	case c15KMaxData1:
+		err = in.m.HandleMaxStreamDataFrame(&wire.MaxStreamDataFrame{StreamID: id, MaximumStreamData: 1})
+	case c15KMaxData3:
+		err = in.m.HandleMaxStreamDataFrame(&wire.MaxStreamDataFrame{StreamID: id, MaximumStreamData: 3})
 	case c15KBlocked:
 		err = in.m.HandleStreamDataBlockedFrame(&wire.StreamDataBlockedFrame{StreamID: id, MaximumStreamData: 1})
 	default:
@@ -506,7 +572,7 @@ func (in *c15Inst) applyFrame(kind, class, num int) *explore.Fail {
 	if class < 2 && num > in.opened[t] {
 		for n := in.opened[t] + 1; n <= num; n++ {
 			sid := in.idOf(class, n)
-			in.strs[sid] = &c15Str{id: sid, class: class, num: n}
+			in.strs[sid] = in.newStr(&c15Str{id: sid, class: class, num: n})
 		}
 		in.tag("opens %d", num-in.opened[t])
 		in.opened[t] = num
@@ -529,6 +595,13 @@ func (in *c15Inst) applyFrame(kind, class, num int) *explore.Fail {
 	case c15KStop:
 		if !s.sreset {
 			s.sreset, s.pendRST, s.pendFIN = true, true, false
+		}
+		// (fine-grained send path) a RESET_STREAM frame may have been queued, also when the
+		// stream was reset before: a RESET_STREAM_AT is superseded by a plain RESET_STREAM
+		s.snd.maybeRST, s.snd.relStale = true, true
+	case c15KMaxData, c15KMaxData1, c15KMaxData3:
+		if s.snd.wr > 0 {
+			s.snd.maybeData = true // (fine-grained send path) buffered data may have become sendable
 		}
 	}
 	return nil
@@ -570,7 +643,7 @@ func (in *c15Inst) applyOpen(t int) *explore.Fail {
 		}
 		in.lastLocal[t] = gn
 		in.localSet[t][gn] = true
-		in.strs[id] = &c15Str{id: id, class: class, num: gn, bidi: bs, ss: us, accepted: true}
+		in.strs[id] = in.newStr(&c15Str{id: id, class: class, num: gn, bidi: bs, ss: us, accepted: true})
 		in.tag("ok")
 		return nil
 	}
@@ -701,11 +774,13 @@ func (in *c15Inst) applyApp(name string, id protocol.StreamID) *explore.Fail {
 		if !s.sreset {
 			s.pendFIN = true
 		}
+		s.snd.maybeData = true
 	case "cancelw":
 		s.sendStr().CancelWrite(6)
 		s.cancW = true
 		if !s.sreset {
 			s.sreset, s.pendRST, s.pendFIN = true, true, false
+			s.snd.maybeRST = true
 		}
 	case "flush":
 		// send everything this stream's send half has queued and acknowledge it
@@ -739,6 +814,7 @@ func (in *c15Inst) settle(op explore.Op) *explore.Fail {
 	// 1. completions: the model decides which streams are fully complete
 	expect := map[protocol.StreamID]bool{}
 	for _, s := range in.strs {
+		s.update()
 		if s.fullyDone() && !s.done {
 			expect[s.id] = true
 		}
@@ -747,8 +823,13 @@ func (in *c15Inst) settle(op explore.Op) *explore.Fail {
 	in.sender.done = nil
 	for _, d := range dones {
 		class, _ := in.classOf(d.id)
-		if !expect[d.id] {
-			return explore.Failf("completion-unexpected:"+c15ClassName[class], "stream %d was reported complete (DeleteStream) after %v, but according to the frames and calls it received it is not fully complete", d.id, op)
+		if s := in.strs[d.id]; s == nil || s.done || !s.mayBeDone() {
+			key, why := "completion-unexpected:"+c15ClassName[class], ""
+			if s != nil && !s.done && s.fine {
+				k, w := s.fineWhyNot()
+				key, why = key+":"+k, " ("+w+")"
+			}
+			return explore.Failf(key, "stream %d was reported complete (DeleteStream) after %v, but according to the frames and calls it received it is not fully complete%s", d.id, op, why)
 		}
 		delete(expect, d.id)
 		if d.err != nil {
@@ -842,6 +923,9 @@ func c15Skip(typ, field string) bool {
 		return typ == "quic.streamsMap" || typ == "quic.Stream" || typ == "quic.SendStream" || typ == "quic.ReceiveStream"
 	case "rttStats", "logger":
 		return typ == "flowcontrol.baseFlowController"
+	case "nextFrame":
+		// rendered by Key() itself, see there
+		return typ == "quic.SendStream"
 	}
 	return false
 }
@@ -876,6 +960,20 @@ func (in *c15Inst) Key() string {
 		sb.WriteString(strconv.Itoa(int(s.id)))
 		sb.WriteByte(':')
 		c15B(&sb, s.accepted, s.fin, s.rst, s.rstEff, s.cancR, s.readErr, s.closed, s.cancW, s.sreset, s.pendFIN, s.pendRST, s.sDone, s.rDone, s.done)
+		if s.fine {
+			c15B(&sb, s.sMay)
+			s.snd.key(&sb)
+		}
+		// SendStream.nextFrame (the data buffered by Write) is rendered here instead of by the
+		// reflective dump: the frame comes from wire's sync.Pool and its Fin flag is whatever the
+		// frame's previous user left there (it is assigned when the frame is popped and never
+		// read before), so the reflective dump would make the key depend on the pool's history.
+		if s.accepted && !s.done && s.hasSend() {
+			if ss := s.sendStr(); ss != nil && ss.nextFrame != nil {
+				nf := ss.nextFrame
+				fmt.Fprintf(&sb, "nf(%d,%d,%q,%v)", nf.StreamID, nf.Offset, nf.Data, nf.DataLenPresent)
+			}
+		}
 	}
 	return sb.String()
 }
